@@ -95,7 +95,7 @@ def _run_chunk(cmd, lines, env=None, sentinel_on_short=True):
     while i < len(lines):
         data = ('\n'.join(lines[i:]) + '\n').encode()
         try:
-            p = subprocess.run(cmd, input=data, capture_output=True, env=env, timeout=3600)
+            p = subprocess.run(cmd, input=data, capture_output=True, env=env, timeout=900)
             got = p.stdout.decode('utf-8', errors='replace').split('\n')
             if got and got[-1] == '':
                 got.pop()
@@ -135,7 +135,7 @@ def run_impl(lines, timeout_ms=5000, jobs=None):
     env['GOMAXPROCS'] = '2'
     return _parallel(['/bin/sh', '-c', f'ulimit -v 4000000; exec {IMPL}'], lines, env, jobs)
 
-def run_model(lines, fuel=30000, jobs=None):
+def run_model(lines, fuel=8000, jobs=None):
     return _parallel(['/bin/sh', '-c', f'ulimit -s unlimited 2>/dev/null || ulimit -s 1000000; exec {MODEL} {fuel}'], lines, None, jobs)
 
 def fields(resp):
